@@ -14,6 +14,7 @@ type Cfg struct {
 	MaxRows   int  // rows per table (0..MaxRows)
 	ForSQLite bool // construction-time cross-check: binary-exact decimals, no INTERSECT/EXCEPT ALL
 	NoIndexes bool
+	NoDecIndex bool // no secondary index with a DECIMAL leading column (decimal-index-not-equal finding)
 }
 
 var (
@@ -68,7 +69,11 @@ func GenSchema(rnd *rand.Rand, cfg Cfg) *Schema {
 		if !cfg.NoIndexes {
 			cands := [][]string{{"a"}, {"b"}, {"a", "b"}, {"s"}, {"d"}, {"b", "a"}, {"s", "a"}}
 			for i, c := range cands {
-				if rnd.Intn(100) < 22 {
+				hit := rnd.Intn(100) < 22
+				if cfg.NoDecIndex && c[0] == "d" {
+					continue
+				}
+				if hit {
 					t.Indexes = append(t.Indexes, c)
 					defs = append(defs, fmt.Sprintf("KEY k%d (%s)", i, strings.Join(c, ", ")))
 				}
@@ -152,6 +157,11 @@ type QCfg struct {
 	NoHavingAliasSort bool // grouped block with HAVING: expression items are sorted by ordinal, not by alias
 	NoDistinctOrdinal bool // SELECT DISTINCT is never sorted by ordinal
 	NoConstFalseOnSub bool // a block with a constant-false ON condition has no subquery
+	NoHashDecScaleMix bool // DECIMAL values compared by hashing (IN subquery, set operations, DISTINCT) all have scale 2; no BOOLEAN paired with INT there
+	NoIntDecEquality  bool // INT = DECIMAL / INT <=> DECIMAL between columns is not generated (inequalities are)
+	NoDecScaleCompare bool // both operands of a DECIMAL comparison have scale 2
+	NoNullArith       bool // a NULL literal is never an arithmetic operand (typed DOUBLE by this engine: float territory)
+	NoOnNullableInner bool // after a LEFT JOIN, the ON of a later INNER JOIN does not reference the LEFT JOIN's right table
 }
 
 type tabRef struct {
@@ -171,6 +181,12 @@ type Gen struct {
 	// noNullLit: no NULL literals inside set-operation arms' select items (a NULL-typed arm column is
 	// unified to CHAR by this engine, same reported class)
 	noNullLit bool
+	// simple: DECIMAL expressions are restricted to scale-2 forms (column, literal, + / - of those,
+	// IFNULL / COALESCE over columns) while select items that take part in hash comparisons are generated
+	simple bool
+	// subLevel > 0 while a subquery block is generated: no SUM over DECIMAL there (this engine types SUM
+	// DOUBLE; DECIMAL vs DOUBLE comparisons belong to the hash-equality finding)
+	subLevel int
 }
 
 // NewGen makes a query generator.
@@ -243,6 +259,24 @@ func (g *Gen) col(c *gctx, t Type) *Expr {
 
 // num generates a numeric expression of family t (TInt or TDec).
 func (g *Gen) num(c *gctx, t Type, depth int) *Expr {
+	if t == TDec && g.simple && g.cfg.NoHashDecScaleMix {
+		switch x := g.rnd.Intn(100); {
+		case x < 60 || depth <= 0:
+			if g.pct(12) {
+				return g.decLit()
+			}
+			return g.col(c, TDec)
+		case x < 80:
+			r := g.col(c, TDec)
+			if g.pct(40) {
+				r = g.decLit()
+			}
+			return &Expr{Op: "arith", T: TDec, Sym: []string{"+", "-"}[g.rnd.Intn(2)], Args: []*Expr{g.col(c, TDec), r}}
+		case x < 90:
+			return &Expr{Op: "ifnull", T: TDec, Args: []*Expr{g.col(c, TDec), g.col(c, TDec)}}
+		}
+		return &Expr{Op: "coalesce", T: TDec, Args: []*Expr{g.col(c, TDec), g.col(c, TDec)}}
+	}
 	if depth <= 0 || g.pct(45) {
 		if g.pct(18) {
 			if t == TInt {
@@ -263,6 +297,14 @@ func (g *Gen) num(c *gctx, t Type, depth int) *Expr {
 		r := g.num(c, rt, depth-1)
 		if g.pct(50) {
 			l, r = r, l
+		}
+		if g.cfg.NoNullArith {
+			if l.Op == "lit" && l.V.IsNull() {
+				l = g.col(c, l.T)
+			}
+			if r.Op == "lit" && r.V.IsNull() {
+				r = g.col(c, r.T)
+			}
 		}
 		return &Expr{Op: "arith", T: t, Sym: sym, Args: []*Expr{l, r}}
 	case x < 62:
@@ -364,7 +406,7 @@ func (g *Gen) pred0(c *gctx, depth int) *Expr {
 	case x < 62:
 		return g.cmp(c, depth)
 	case x < 72:
-		return &Expr{Op: "isnull", T: TBool, Not: g.pct(50), Args: []*Expr{g.anyExpr(c, 0)}}
+		return &Expr{Op: "isnull", T: TBool, Not: g.pct(50), Args: []*Expr{g.nonLit(c, g.anyExpr(c, 0))}}
 	case x < 82:
 		return g.between(c)
 	default:
@@ -389,13 +431,43 @@ func (g *Gen) anyExpr(c *gctx, depth int) *Expr {
 	return g.col(c, TStr)
 }
 
-// nonLit replaces a literal by a column of the same family: comparisons, BETWEEN and IN never have
-// a constant left operand, so no predicate folds to a constant (the deliberate ON (1 = 0) aside).
-func (g *Gen) nonLit(c *gctx, e *Expr) *Expr {
-	if e.Op == "lit" {
+// nonNull replaces a NULL literal by a column (NoNullArith).
+func (g *Gen) nonNull(c *gctx, e *Expr) *Expr {
+	if g.cfg.NoNullArith && e.Op == "lit" && e.V.IsNull() {
 		return g.col(c, e.T)
 	}
 	return e
+}
+
+// nonLit replaces a literal by a column of the same family: comparisons, BETWEEN and IN never have
+// a constant left operand, so no predicate folds to a constant (the deliberate ON (1 = 0) aside).
+func (g *Gen) nonLit(c *gctx, e *Expr) *Expr {
+	hasCol := false
+	e.walk(func(x *Expr) {
+		if x.Op == "col" {
+			hasCol = true
+		}
+	})
+	if !hasCol {
+		t := e.T
+		if t == TBool {
+			t = TInt
+		}
+		return g.col(c, t)
+	}
+	return e
+}
+
+// localCtx is c without its outer tables: inside a subquery the tested operand of BETWEEN / IN (list)
+// is local, so that no implied comparison references outer columns only (NoOuterOnlyInSub).
+func (g *Gen) localCtx(c *gctx) *gctx {
+	if g.cfg.NoOuterOnlyInSub && len(c.outer) > 0 && len(c.local) > 0 {
+		lc := *c
+		lc.outer = nil
+		lc.depth = 0
+		return &lc
+	}
+	return c
 }
 
 func (g *Gen) cmp(c *gctx, depth int) *Expr {
@@ -410,6 +482,8 @@ func (g *Gen) cmp(c *gctx, depth int) *Expr {
 			r = g.num(c, TInt, depth)
 		}
 	case x < 70: // dec vs dec / dec literal / int literal
+		old := g.simple
+		g.simple = g.simple || g.cfg.NoDecScaleCompare
 		l = g.nonLit(c, g.num(c, TDec, depth))
 		switch {
 		case g.pct(30):
@@ -419,9 +493,15 @@ func (g *Gen) cmp(c *gctx, depth int) *Expr {
 		default:
 			r = g.num(c, TDec, depth)
 		}
+		g.simple = old
 	case x < 80: // int expression vs dec expression (no literal on either side)
 		l = g.col(c, TInt)
 		r = g.col(c, TDec)
+		if g.cfg.NoIntDecEquality {
+			for sym == "=" || sym == "<=>" {
+				sym = cmpSyms[g.rnd.Intn(len(cmpSyms))]
+			}
+		}
 	default: // strings: column vs column or column vs literal
 		l = g.col(c, TStr)
 		if g.pct(50) {
@@ -448,6 +528,7 @@ func (g *Gen) cmp(c *gctx, depth int) *Expr {
 
 func (g *Gen) between(c *gctx) *Expr {
 	e := &Expr{Op: "between", T: TBool, Not: g.pct(30)}
+	xc := g.localCtx(c)
 	switch x := g.rnd.Intn(10); {
 	case x < 5:
 		lo, hi := g.intLit(), g.intLit()
@@ -457,15 +538,15 @@ func (g *Gen) between(c *gctx) *Expr {
 		if g.pct(30) {
 			hi = g.col(c, TInt)
 		}
-		e.Args = []*Expr{g.nonLit(c, g.num(c, TInt, 1)), lo, hi}
+		e.Args = []*Expr{g.nonLit(xc, g.num(xc, TInt, 1)), lo, hi}
 	case x < 8:
 		lo, hi := g.decLit(), g.decLit()
 		if g.pct(30) {
 			hi = g.col(c, TDec)
 		}
-		e.Args = []*Expr{g.col(c, TDec), lo, hi}
+		e.Args = []*Expr{g.col(xc, TDec), lo, hi}
 	default:
-		e.Args = []*Expr{g.col(c, TStr), g.strLit(), g.strLit()}
+		e.Args = []*Expr{g.col(xc, TStr), g.strLit(), g.strLit()}
 	}
 	return e
 }
@@ -473,9 +554,10 @@ func (g *Gen) between(c *gctx) *Expr {
 func (g *Gen) inList(c *gctx) *Expr {
 	e := &Expr{Op: "inlist", T: TBool, Not: g.pct(40)}
 	n := 1 + g.rnd.Intn(4)
+	xc := g.localCtx(c)
 	switch x := g.rnd.Intn(10); {
 	case x < 6:
-		e.Args = []*Expr{g.nonLit(c, g.num(c, TInt, 1))}
+		e.Args = []*Expr{g.nonLit(xc, g.num(xc, TInt, 1))}
 		for i := 0; i < n; i++ {
 			if g.pct(20) {
 				e.Args = append(e.Args, g.col(c, TInt))
@@ -484,12 +566,12 @@ func (g *Gen) inList(c *gctx) *Expr {
 			}
 		}
 	case x < 8:
-		e.Args = []*Expr{g.col(c, TDec)}
+		e.Args = []*Expr{g.col(xc, TDec)}
 		for i := 0; i < n; i++ {
 			e.Args = append(e.Args, g.decLit())
 		}
 	default:
-		e.Args = []*Expr{g.col(c, TStr)}
+		e.Args = []*Expr{g.col(xc, TStr)}
 		for i := 0; i < n; i++ {
 			e.Args = append(e.Args, g.strLit())
 		}
@@ -517,9 +599,12 @@ func (g *Gen) inSub(c *gctx) *Expr {
 	if t == TStr {
 		l = g.col(c, TStr)
 	} else {
+		old := g.simple
+		g.simple = t == TDec
 		l = g.nonLit(c, g.num(c, t, 1))
+		g.simple = old
 	}
-	q := g.selectBlock(g.subCtx(c), blockOpts{want: []Type{t}, sub: true})
+	q := g.selectBlock(g.subCtx(c), blockOpts{want: []Type{t}, sub: true, simple: t == TDec})
 	if g.cfg.NoInSubNullItem && q.Items[0].E.Op == "lit" && q.Items[0].E.V.IsNull() {
 		q.Items[0].E = g.col(&gctx{local: []tabRef{{q.From[0].Alias, g.db.Tables[q.From[0].Table]}}}, t)
 	}
@@ -535,7 +620,7 @@ func (g *Gen) exists(c *gctx) *Expr {
 
 // scalarSub is an aggregate without GROUP BY: exactly one row. AVG is never used (rounding).
 func (g *Gen) scalarSub(c *gctx, t Type) *Expr {
-	q := g.selectBlock(g.subCtx(c), blockOpts{want: []Type{t}, sub: true, scalar: true})
+	q := g.selectBlock(g.subCtx(c), blockOpts{want: []Type{t}, sub: true, scalar: true, simple: t == TDec && g.cfg.NoDecScaleCompare})
 	return &Expr{Op: "ssub", T: t, Q: q}
 }
 
@@ -548,6 +633,8 @@ type blockOpts struct {
 	plain   bool // no DISTINCT / grouping (used for compound strings)
 	setArm  bool
 	nTables int
+	simple  bool   // items take part in hash comparisons: scale-2 decimals only
+	mirror  *Query // INTERSECT right arm: same first table and column items as this block, so rows can coincide
 }
 
 // aggExpr generates one aggregate call whose result family is t (TInt, TDec or TStr).
@@ -561,16 +648,29 @@ func (g *Gen) aggExpr(c *gctx, t Type, allowAvg bool) (*Expr, bool) {
 		x := g.rnd.Intn(100)
 		if allowAvg && x < 25 {
 			at := g.numType()
-			return &Expr{Op: "agg", T: TDec, Sym: "AVG", Args: []*Expr{g.num(ac, at, 1)}, Distinct: g.pct(10)}, true
+			dist := g.pct(10)
+			old := g.simple
+			g.simple = g.simple || dist
+			arg := g.num(ac, at, 1)
+			g.simple = old
+			return &Expr{Op: "agg", T: TDec, Sym: "AVG", Args: []*Expr{arg}, Distinct: dist}, true
 		}
 		fn := []string{"SUM", "MIN", "MAX"}[g.rnd.Intn(3)]
+		if g.subLevel > 0 && g.cfg.NoHashDecScaleMix && fn == "SUM" {
+			fn = "MAX"
+		}
 		return &Expr{Op: "agg", T: TDec, Sym: fn, Args: []*Expr{g.num(ac, TDec, 1)}}, false
 	}
 	switch x := g.rnd.Intn(100); {
 	case x < 25:
 		return &Expr{Op: "agg", T: TInt, Sym: "COUNT", Star: true}, false
 	case x < 45:
-		return &Expr{Op: "agg", T: TInt, Sym: "COUNT", Distinct: g.pct(40), Args: []*Expr{g.anyExpr(ac, 0)}}, false
+		dist := g.pct(40)
+		old := g.simple
+		g.simple = g.simple || dist
+		arg := g.anyExpr(ac, 0)
+		g.simple = old
+		return &Expr{Op: "agg", T: TInt, Sym: "COUNT", Distinct: dist, Args: []*Expr{arg}}, false
 	case x < 70 && !g.noSumInt:
 		return &Expr{Op: "agg", T: TInt, Sym: "SUM", Distinct: g.pct(15), Args: []*Expr{g.num(ac, TInt, 1)}}, false
 	}
@@ -581,6 +681,10 @@ func (g *Gen) aggExpr(c *gctx, t Type, allowAvg bool) (*Expr, bool) {
 // selectBlock generates one SELECT block.
 func (g *Gen) selectBlock(c *gctx, o blockOpts) *Query {
 	q := &Query{Limit: -1, Offset: -1}
+	if o.sub {
+		g.subLevel++
+		defer func() { g.subLevel-- }()
+	}
 	maxFrom := g.cfg.MaxFrom
 	if o.sub {
 		maxFrom = g.cfg.SubFrom
@@ -608,6 +712,9 @@ func (g *Gen) selectBlock(c *gctx, o blockOpts) *Query {
 	depth0 := c.depth
 	for k := 0; k < n; k++ {
 		t := g.pickTable()
+		if k == 0 && o.mirror != nil {
+			t = g.db.Tables[o.mirror.From[0].Table]
+		}
 		f := &FromItem{Table: t.Name, Alias: g.newAlias()}
 		c.local = append(c.local, tabRef{f.Alias, t})
 		if k > 0 {
@@ -623,8 +730,16 @@ func (g *Gen) selectBlock(c *gctx, o blockOpts) *Query {
 			}
 			if f.Join != "CROSS" {
 				f.On = g.onPred(c)
+				if g.cfg.NoOnNullableInner && f.Join == "INNER" {
+					for try := 0; try < 8 && refsNullable(f.On, q.From); try++ {
+						f.On = g.onPred(c)
+					}
+					if refsNullable(f.On, q.From) {
+						f.Join, f.On = "CROSS", nil
+					}
+				}
 				if g.cfg.NoConstFalseOnSub && f.On.Op == "cmp" && f.On.Args[0].Op == "lit" && f.On.Args[1].Op == "lit" {
-					if depth0 > 0 && g.pct(50) {
+					if o.sub || (depth0 > 0 && g.pct(50)) {
 						f.On = g.onEq(c) // keep the subqueries, give up the constant-false ON
 					} else {
 						c.depth = 0 // keep the constant-false ON: this block gets no subquery
@@ -635,14 +750,19 @@ func (g *Gen) selectBlock(c *gctx, o blockOpts) *Query {
 		q.From = append(q.From, f)
 	}
 	// WHERE
-	if g.pct(70) || (o.sub && len(c.outer) > 0 && g.pct(60)) {
+	if o.mirror != nil && g.pct(55) {
+		// mirrored set-operation arm without a filter: rows coincide with the other arm's
+	} else if g.pct(70) || (o.sub && len(c.outer) > 0 && g.pct(60)) {
 		c.subIn = "where"
 		q.Where = g.pred(c, 2)
 	}
 	switch {
 	case o.scalar:
 		q.Grouped = true
+		oldS := g.simple
+		g.simple = g.simple || o.simple
 		e, _ := g.aggExpr(c, o.want[0], false)
+		g.simple = oldS
 		q.Items = []*Item{{E: e, Alias: "c0"}}
 		return q
 	case o.exists:
@@ -659,14 +779,18 @@ func (g *Gen) selectBlock(c *gctx, o blockOpts) *Query {
 		}
 		return q
 	}
-	grouped := !o.plain && g.pct(30)
+	grouped := !o.plain && o.mirror == nil && g.pct(30)
+	oldSimple := g.simple
+	defer func() { g.simple = oldSimple }()
 	if grouped {
+		g.simple = o.simple || o.setArm
 		g.makeGrouped(c, q, o)
 	} else {
-		g.plainItems(c, q, o)
 		if !o.plain && g.pct(18) {
 			q.Distinct = true
 		}
+		g.simple = o.simple || o.setArm || q.Distinct
+		g.plainItems(c, q, o)
 	}
 	return q
 }
@@ -750,6 +874,12 @@ func (g *Gen) randType() Type {
 func (g *Gen) plainItems(c *gctx, q *Query, o blockOpts) {
 	if len(o.want) > 0 {
 		for i, t := range o.want {
+			if o.mirror != nil && !o.mirror.Grouped && len(o.mirror.From) == 1 && g.pct(90) {
+				if e, ok := cloneRename(o.mirror.Items[i].E, o.mirror.From[0].Alias, c.local[0].alias); ok {
+					q.Items = append(q.Items, &Item{E: e, Alias: fmt.Sprintf("c%d", i)})
+					continue
+				}
+			}
 			q.Items = append(q.Items, &Item{E: g.itemOfType(c, t, o), Alias: fmt.Sprintf("c%d", i)})
 		}
 		return
@@ -794,7 +924,7 @@ func (g *Gen) makeGrouped(c *gctx, q *Query, o blockOpts) {
 		case x < 70:
 			k = g.col(kc, []Type{TInt, TInt, TDec, TStr}[g.rnd.Intn(4)])
 		case x < 90:
-			k = &Expr{Op: "arith", T: TInt, Sym: []string{"+", "-", "*"}[g.rnd.Intn(3)], Args: []*Expr{g.col(kc, TInt), g.num(kc, TInt, 0)}}
+			k = &Expr{Op: "arith", T: TInt, Sym: []string{"+", "-", "*"}[g.rnd.Intn(3)], Args: []*Expr{g.col(kc, TInt), g.nonNull(kc, g.num(kc, TInt, 0))}}
 		default:
 			k = &Expr{Op: "isnull", T: TBool, Args: []*Expr{g.anyExpr(kc, 0)}}
 		}
@@ -814,7 +944,7 @@ func (g *Gen) makeGrouped(c *gctx, q *Query, o blockOpts) {
 		var keys []*Expr
 		for _, k := range q.GroupBy {
 			kt := k.T
-			if kt == TBool {
+			if kt == TBool && !(g.cfg.NoHashDecScaleMix && (o.setArm || len(o.want) > 0)) {
 				kt = TInt
 			}
 			if kt == t {
@@ -832,7 +962,10 @@ func (g *Gen) makeGrouped(c *gctx, q *Query, o blockOpts) {
 			case len(keys) > 0 && g.pct(40):
 				r = keys[g.rnd.Intn(len(keys))]
 			case g.pct(50):
-				r = g.intLit()
+				r = g.nonNull(&gctx{local: c.local}, g.intLit())
+				if r.Op == "col" {
+					r = lit(IntVal(2), TInt)
+				}
 			default:
 				r, _ = g.aggExpr(c, TInt, false)
 			}
@@ -923,6 +1056,103 @@ func (g *Gen) havingPred(c *gctx, q *Query, depth int) *Expr {
 	return &Expr{Op: "cmp", T: TBool, Sym: cmpSyms[g.rnd.Intn(len(cmpSyms))], Args: []*Expr{operand, r}}
 }
 
+// cloneQuery deep-copies a select block giving every table reference it defines a fresh alias.
+func (g *Gen) cloneQuery(q *Query, m map[string]string) *Query {
+	c := *q
+	c.From = nil
+	for _, f := range q.From {
+		nf := *f
+		nf.Alias = g.newAlias()
+		m[f.Alias] = nf.Alias
+		c.From = append(c.From, &nf)
+	}
+	for i, f := range q.From {
+		if f.On != nil {
+			c.From[i].On = g.cloneExpr(f.On, m)
+		}
+	}
+	if q.Where != nil {
+		c.Where = g.cloneExpr(q.Where, m)
+	}
+	c.GroupBy = nil
+	for _, k := range q.GroupBy {
+		c.GroupBy = append(c.GroupBy, g.cloneExpr(k, m))
+	}
+	if q.Having != nil {
+		c.Having = g.cloneExpr(q.Having, m)
+	}
+	c.Items = nil
+	for _, it := range q.Items {
+		ni := *it
+		ni.E = g.cloneExpr(it.E, m)
+		c.Items = append(c.Items, &ni)
+	}
+	c.OrderBy = append([]OrderKey{}, q.OrderBy...)
+	return &c
+}
+
+func (g *Gen) cloneExpr(e *Expr, m map[string]string) *Expr {
+	c := *e
+	if c.Op == "col" {
+		if to, ok := m[c.Tab]; ok {
+			c.Tab = to
+		}
+	}
+	c.Args = nil
+	for _, a := range e.Args {
+		c.Args = append(c.Args, g.cloneExpr(a, m))
+	}
+	if e.Q != nil {
+		c.Q = g.cloneQuery(e.Q, m)
+	}
+	return &c
+}
+
+// cloneRename copies a subquery-free expression, renaming one table alias.
+func cloneRename(e *Expr, from, to string) (*Expr, bool) {
+	if e.Q != nil {
+		return nil, false
+	}
+	c := *e
+	if c.Op == "col" {
+		if c.Tab != from {
+			return nil, false
+		}
+		c.Tab = to
+	}
+	c.Args = nil
+	for _, a := range e.Args {
+		x, ok := cloneRename(a, from, to)
+		if !ok {
+			return nil, false
+		}
+		c.Args = append(c.Args, x)
+	}
+	return &c, true
+}
+
+// refsNullable reports whether e references a table made nullable by an earlier LEFT or RIGHT JOIN.
+func refsNullable(e *Expr, from []*FromItem) bool {
+	hit := false
+	nullable := map[string]bool{}
+	for i, f := range from {
+		if f.Join == "LEFT" {
+			nullable[f.Alias] = true
+		}
+		if f.Join == "RIGHT" {
+			for _, p := range from[:i] {
+				nullable[p.Alias] = true
+			}
+		}
+	}
+	e.walk(func(x *Expr) {
+		if x.Op == "col" && nullable[x.Tab] {
+			hit = true
+		}
+	})
+	return hit
+}
+
 // refersOther reports whether the expression references a table alias other than first.
 func refersOther(e *Expr, first string) bool {
 	other := false
@@ -953,9 +1183,30 @@ func (g *Gen) Query() *Query {
 			want = append(want, t)
 		}
 		// the left arm's families are normalised the same way
+		op := []string{"UNION", "UNION", "INTERSECT", "INTERSECT", "EXCEPT", "EXCEPT"}[g.rnd.Intn(6)]
 		rc := &gctx{depth: g.cfg.SubDepth}
-		r := g.selectBlock(rc, blockOpts{want: want, setArm: true, noAvg: true})
-		op := []string{"UNION", "UNION", "INTERSECT", "EXCEPT"}[g.rnd.Intn(4)]
+		ro := blockOpts{want: want, setArm: true, noAvg: true}
+		if op != "UNION" && g.pct(70) {
+			ro.mirror = l // INTERSECT / EXCEPT arms over the same table, so that rows do coincide
+		}
+		var r *Query
+		if op == "INTERSECT" && l.SetOp == "" && g.pct(55) {
+			// the right arm is a copy of the left one (fresh aliases) with its WHERE dropped or redrawn,
+			// so that the intersection is non-empty whenever the left arm is
+			r = g.cloneQuery(l, map[string]string{})
+			if !l.Grouped || g.pct(50) {
+				r.Where = nil
+				if g.pct(40) {
+					var loc []tabRef
+					for _, f := range r.From {
+						loc = append(loc, tabRef{f.Alias, g.db.Tables[f.Table]})
+					}
+					r.Where = g.pred(&gctx{local: loc}, 1)
+				}
+			}
+		} else {
+			r = g.selectBlock(rc, ro)
+		}
 		all := g.pct(45)
 		if g.cfg.ForSQLite && op != "UNION" {
 			all = false
